@@ -7,6 +7,7 @@ import TdxModel.Drive.Rtmr
 import TdxModel.Drive.PckExt
 import TdxModel.Drive.CheckTool
 import TdxModel.Drive.Verify
+import TdxModel.Drive.Ccel
 
 open Tdx Tdx.Proto Tdx.Drive
 
@@ -26,6 +27,8 @@ def dispatch (l : Line) : P String :=
   | "C19.pinned" => c19 Tdx.CheckTool.pinned l
   | "V.verify" => Tdx.Drive.V.verify l
   | "V.levels" => Tdx.Drive.V.levels l
+  | "C18.bank" => c18bank l
+  | "C18.parse" => c18parse l
   | op => .error s!"unknown op {op}"
 
 partial def loop (h : IO.FS.Stream) (out : IO.FS.Stream) (blobs : List (Nat × Bytes)) : IO Unit := do
